@@ -93,7 +93,7 @@ def comp_traces(info, tier):
 
     ins = [UnitVec("axis"), Angle("a", k, 0.3, 1.4), Angle("b_", k, 0.3, 1.4), Free("v", max(ntr, 1))]
     return [_Trace(f"C02.{n}.comp", ins, b, [Ob("comp: M(exp((a+b)x)) = M(exp(a x)) M(exp(b x))", "M_AB", "MAMB")],
-                   functions=fns_of(info), decide=CLOSED, budget_s=600)]
+                   functions=fns_of(info), decide=CLOSED, budget_s=600, max_paths=512)]
 
 
 QUICK = ["SO2", "SE2", "R2", "R3", "SO3Quat", "SO3Mrp", "SO3Dcm", "SO3Euler", "SE3Quat", "SE3Mrp", "SE23Quat", "SE23Mrp"]
